@@ -152,7 +152,7 @@ def run(prop: str, tier: str) -> int:
     rep.assumptions = ["name order is Python's str order: the harness maps ranks to names with a table asserted against "
                        "sorted(); TLC only sees ranks", "size/mtime are compared by the harness against os.stat "
                        "(numeric pass-through)", "symlinks and special files are not generated"]
-    sts = shapes(rep, max_nodes=4 if quick else 5, k=2, label="dir-shapes")
+    sts = shapes(rep, max_nodes=4 if quick else 6, k=2, label="dir-shapes")
     sts = [core.norm_state(s) for s in sts]
     sts = [{x: s[x] for x in ("n", "par", "kids", "top", "dat", "did", "knd", "meta", "typed")} for s in sts]
     sts = [s for s in sts if valid_dir(s)]
